@@ -1,6 +1,7 @@
 package types
 
 import (
+	"errors"
 	"fmt"
 	"time"
 
@@ -115,7 +116,13 @@ func (x *XDateTime) MarshalJSON() ([]byte, error) {
 
 // UnmarshalJSON is called when a struct containing this type is unmarshaled
 func (x *XDateTime) UnmarshalJSON(data []byte) error {
-	return jsonx.Unmarshal(data, &x.native)
+	if err := jsonx.Unmarshal(data, &x.native); err != nil {
+		return err
+	}
+	if !envs.IsWritableOffset(x.native) {
+		return errors.New("time zone offset out of range")
+	}
+	return nil
 }
 
 // XDateTimeZero is the zero time value
